@@ -39,7 +39,7 @@ CHECKS['C02'] = dict(
    note=COMMON_NOTE + '; f64::powf (libm) is modelled exactly only for integral exponents, otherwise judged by a 50-digit decimal oracle', ref='DESIGN.md §5 C02')
 CHECKS['C03'] = dict(
    technique='Coq proof with Coquelicot (is_derive of the evaluated polynomial for both types, shape of derivative terms, closure of well-formedness under all derive/integrate entry points) + bit-for-bit differential correspondence through the real parsers + exact symbolic oracle',
-   text='10 theorems: c03_simple and c03_partial (the returned derivative evaluates to the true (partial) derivative at every point of the natural domain, terms without the variable vanish, no zero exponent remains), absent/multi-letter variables give the zero polynomial, c03_closed and c03_closed_univariate (results are well-formed and usable through every entry point, incl. constant polynomials, to any chain depth); chains of derive/integrate/evaluate to depth 3 compared bit for bit',
+   text='11 theorems: c03_simple and c03_partial (the returned derivative evaluates to the true (partial) derivative at every point of the natural domain, terms without the variable vanish, no zero exponent remains), absent/multi-letter variables give the zero polynomial, c03_closed and c03_closed_univariate (results are well-formed and usable through every entry point, incl. constant polynomials, to any chain depth); chains of derive/integrate/evaluate to depth 3 compared bit for bit',
    note=COMMON_NOTE, ref='DESIGN.md §5 C03')
 CHECKS['C04'] = dict(
    technique='Coq proof with Coquelicot (antiderivative property, zero constant of integration, analytical_integral = RInt, additivity and antisymmetry) + bit-for-bit differential correspondence + exact oracle',
@@ -69,7 +69,7 @@ CHECKS['C15'] = dict(
 
 CHECKS['C06'] = dict(
    technique='Coq proof (loop as structural recursion on the cap: soundness of every returned value, initial-guess rejection, no panic / no endless loop for every arithmetic, bracket invariants, IVT-based location of a root, exit-before-cap implies Ok under a Lipschitz condition) + bit-for-bit correspondence (libm-bridged for the multivariate type) + exact oracle',
-   text='12 theorems: c06_sound (Ok x => lo <= x <= hi and |g(x)| < the residual gate re-read from the source), both polynomial types and modes, c06_init_rejected / reversed bracket, c06_total (all instances: never a panic, at most cap+1 bodies), sign-change invariant, root-at-lower-end and stale-zero repairs as positive theorems, c06_finds_root_partial + c06_exit_before_cap_is_ok (converse up to "the loop exits before the cap", which the oracle decides with cap >= 1200)',
+   text='13 theorems (incl. c06_finds_root_away_from_zero: the converse in exact arithmetic for brackets away from 0): c06_sound (Ok x => lo <= x <= hi and |g(x)| < the residual gate re-read from the source), both polynomial types and modes, c06_init_rejected / reversed bracket, c06_total (all instances: never a panic, at most cap+1 bodies), sign-change invariant, root-at-lower-end and stale-zero repairs as positive theorems, c06_finds_root_partial + c06_exit_before_cap_is_ok (converse up to "the loop exits before the cap", which the oracle decides with cap >= 1200)',
    note=COMMON_NOTE + '; one known finding (F-C06-LOOSE-TOL: coarse tolerance exits before the fixed 1e-4 residual gate can pass)', ref='DESIGN.md §5 C06')
 CHECKS['C07'] = dict(
    technique='Coq proof (Newton step and relative-tolerance facts on every Ok, Taylor-Lagrange second-order residual bound for polynomial targets, no panic and at most max(cap,1) iterations, exact-root acceptance, one-step monotonicity) + bit-for-bit correspondence + exact oracle',
